@@ -175,6 +175,24 @@ fn gds_lib(g: &Graph, listing: &[usize], rng: &mut Rng) -> GdsLibrary {
     }
     lib
 }
+fn tetris_lib(g: &Graph, listing: &[usize]) -> layout21tetris::library::Library {
+    use layout21tetris as tet;
+    use tet::coords::{PrimPitches, Xy};
+    let n = g.len();
+    let cells: Vec<Ptr<tet::cell::Cell>> = (0..n).map(|i| Ptr::new(tet::cell::Cell::from(tet::layout::Layout::new(format!("c{}", i), 0, tet::outline::Outline::rect(2, 2).unwrap())))).collect();
+    for i in 0..n {
+        let mut c = cells[i].write().unwrap();
+        let lay = c.layout.as_mut().unwrap();
+        for (k, &j) in g[i].iter().enumerate() {
+            lay.instances.add(tet::instance::Instance { inst_name: format!("i{}", k), cell: cells[j].clone(), loc: tet::placement::Place::Abs(Xy::new(PrimPitches::x(3 * k as isize), PrimPitches::y(0))), reflect_horiz: false, reflect_vert: false });
+        }
+    }
+    let mut lib = tet::library::Library::new("tlib");
+    for &i in listing {
+        lib.cells.push(cells[i].clone());
+    }
+    lib
+}
 fn idx_of(name: &str) -> usize {
     name[1..].parse().unwrap_or(usize::MAX)
 }
@@ -315,6 +333,68 @@ impl C17 {
             }
         }
     }
+    /// which: 1 = Library::dep_order, 2 = cell order of ProtoExporter::export, 4 = Placer::place (which orders cells before placing)
+    fn embedded_tetris(&self, cx: &mut Cx, g: &Graph, listing: &[usize], class: &str, which: u8) {
+        use layout21tetris as tet;
+        let reach = reachable(g, listing);
+        let cyclic = has_cycle(g, &reach);
+        if which & 1 != 0 {
+            cx.eval();
+            let lib = tetris_lib(g, listing);
+            match guard(|| lib.dep_order()) {
+                Err(c) => cx.violation(&format!("{}|tetris-dep_order|panic|{}", class, c.norm_msg()), json!({"graph": g, "listing": listing, "panic": c.msg})),
+                Ok(cells) => {
+                    let seq: Vec<usize> = cells.iter().map(|c| idx_of(&c.read().unwrap().name)).collect();
+                    match judge(g, listing, Some(&seq)) {
+                        Err(w) => cx.violation(&format!("{}|tetris-dep_order|{}", class, w), json!({"graph": g, "listing": listing, "result": seq})),
+                        Ok(()) => cx.count("tetris_dep_orders_valid"),
+                    }
+                }
+            }
+        }
+        if which & 2 != 0 {
+            cx.eval();
+            let lib = tetris_lib(g, listing);
+            match guard(|| tet::conv::proto::ProtoExporter::export(&lib)) {
+                Err(c) => cx.violation(&format!("{}|tetris-proto-export|panic|{}", class, c.norm_msg()), json!({"graph": g, "listing": listing, "panic": c.msg})),
+                Ok(Err(e)) => {
+                    if !cyclic {
+                        cx.violation(&format!("{}|tetris-proto-export|acyclic-graph-rejected", class), json!({"graph": g, "listing": listing, "error": format!("{:?}", e).chars().take(200).collect::<String>()}));
+                    } else {
+                        cx.count("tetris_proto_cycles_rejected");
+                    }
+                }
+                Ok(Ok(p)) => {
+                    let seq: Vec<usize> = p.cells.iter().map(|c| idx_of(&c.name)).collect();
+                    match judge(g, listing, Some(&seq)) {
+                        Err(w) => cx.violation(&format!("{}|tetris-proto-export|{}", class, w), json!({"graph": g, "listing": listing, "result": seq})),
+                        Ok(()) => cx.count("tetris_proto_cell_orders_valid"),
+                    }
+                }
+            }
+        }
+        if which & 4 != 0 {
+            cx.eval();
+            let lib = tetris_lib(g, listing);
+            match guard(|| tet::placer::Placer::place(lib, crate::gen::tetgen::empty_stack())) {
+                Err(c) => cx.violation(&format!("{}|tetris-placer|panic|{}", class, c.norm_msg()), json!({"graph": g, "listing": listing, "panic": c.msg})),
+                Ok(Err(_)) => {
+                    if !cyclic {
+                        cx.violation(&format!("{}|tetris-placer|acyclic-graph-rejected", class), json!({"graph": g, "listing": listing}));
+                    } else {
+                        cx.count("tetris_placer_cycles_rejected");
+                    }
+                }
+                Ok(Ok(_)) => {
+                    if cyclic {
+                        cx.violation(&format!("{}|tetris-placer|cyclic-graph-ordered", class), json!({"graph": g, "listing": listing}));
+                    } else {
+                        cx.count("tetris_placer_ok");
+                    }
+                }
+            }
+        }
+    }
     fn embedded_gds(&self, cx: &mut Cx, g: &Graph, listing: &[usize], class: &str) {
         cx.eval();
         let lib = gds_lib(g, listing, &mut cx.rng);
@@ -346,13 +426,13 @@ impl Prop for C17 {
     fn rule(&self) -> String {
         "Generic helper (layout21utils::DepOrder with a harness adjacency-table impl): EXHAUSTIVE every digraph on 4 nodes with self-loops (2^16) under every ordered subset listing (65 listings incl. partial ones); thorough adds every loop-free digraph on 5 nodes (2^20) in all 120 orders, \
          quick a seeded sample of 5-node digraphs with self-loops in all 120 orders; every 4-node digraph also runs with hook logging on and its enter/cycle/done/return event trace is checked offline (LIFO completion, no item done twice, pending/seen disjoint, pending empty at return, depth <= |V|, push budget); \
-         random DAGs/cyclic graphs up to 300 nodes traced. Embedded orderers: raw DepOrder::order and the cell order of Library::to_proto, and the import order of Library::from_gds (SREF/AREF edges): every acyclic loop-free 4-node digraph in all 24 listings, random DAGs up to 300 nodes with shared dependencies and users listed first; \
+         random DAGs/cyclic graphs up to 300 nodes traced. Embedded orderers: raw DepOrder::order and the cell order of Library::to_proto, the import order of Library::from_gds (SREF/AREF edges), and the gridded-layout orderers (Library::dep_order, ProtoExporter cell order, Placer::place): every acyclic loop-free 4-node digraph in all 24 listings, random DAGs up to 300 nodes with shared dependencies and users listed first; \
          cyclic graphs (self-loop, 2-cycle, long cycle) each in an isolated child process (stack overflow / hang = violation). Oracle: refs/order.rs (reachable set, duplicate-free, dependencies first, cycle => error). distinct_nontrivial = distinct (graph, listing) pairs with at least one edge."
             .into()
     }
     fn assumptions(&self) -> Vec<String> {
         vec!["an orderer without an error channel (returns Vec) violates the cycle clause whenever it returns at all on a cyclic graph".into(),
-             "tetris orderers (Library::dep_order, CellOrder, PlaceOrder) are driven in generators prefixed tetris-".into()]
+             "tetris orderers: Library::dep_order, the cell order of the tetris ProtoExporter (CellOrder) and Placer::place (which orders cells, then instances via PlaceOrder; instance-relation cycles are C09's cyclic generator)".into()]
     }
     fn plan(&self, tier: Tier) -> Vec<GenSpec> {
         vec![
@@ -365,6 +445,9 @@ impl Prop for C17 {
             GenSpec::random("embedded-cyclic-raw-deporder", tier.pick(24, 300)).isolated(),
             GenSpec::random("embedded-cyclic-raw-to_proto", tier.pick(24, 300)).isolated(),
             GenSpec::random("embedded-cyclic-gds", tier.pick(24, 300)).isolated(),
+            GenSpec::random("embedded-cyclic-tetris-dep_order", tier.pick(24, 300)).isolated(),
+            GenSpec::random("embedded-cyclic-tetris-proto", tier.pick(24, 300)).isolated(),
+            GenSpec::random("embedded-cyclic-tetris-placer", tier.pick(24, 300)).isolated(),
         ]
     }
     fn run_case(&self, cx: &mut Cx) {
@@ -471,6 +554,7 @@ impl Prop for C17 {
                     }
                     self.embedded_raw(cx, &g, &l, "embedded", 3);
                     self.embedded_gds(cx, &g, &l, "embedded");
+                    self.embedded_tetris(cx, &g, &l, "embedded", 7);
                 }
                 cx.sample(|| json!({"dag": g, "listings": 24}));
             }
@@ -488,9 +572,10 @@ impl Prop for C17 {
                 cx.nontrivial(crate::rt::prng::strhash(&format!("{:?}{:?}", g, listing)));
                 self.embedded_raw(cx, &g, &listing, "embedded", 3);
                 self.embedded_gds(cx, &g, &listing, "embedded");
+                self.embedded_tetris(cx, &g, &listing, "embedded", 7);
                 cx.sample(|| json!({"nodes": n, "edges": g.iter().map(|d| d.len()).sum::<usize>(), "listing_head": listing.iter().take(8).collect::<Vec<_>>()}));
             }
-            "embedded-cyclic-raw-deporder" | "embedded-cyclic-raw-to_proto" | "embedded-cyclic-gds" => {
+            "embedded-cyclic-raw-deporder" | "embedded-cyclic-raw-to_proto" | "embedded-cyclic-gds" | "embedded-cyclic-tetris-dep_order" | "embedded-cyclic-tetris-proto" | "embedded-cyclic-tetris-placer" => {
                 let big = cx.n % 4 == 0;
                 let n = 1 + cx.rng.usize(if big { 300 } else { 6 });
                 let mut g = random_dag(&mut cx.rng, n, 100);
@@ -503,6 +588,12 @@ impl Prop for C17 {
                     self.embedded_raw(cx, &g, &listing, "cyclic", 1);
                 } else if gen == "embedded-cyclic-raw-to_proto" {
                     self.embedded_raw(cx, &g, &listing, "cyclic", 2);
+                } else if gen == "embedded-cyclic-tetris-dep_order" {
+                    self.embedded_tetris(cx, &g, &listing, "cyclic", 1);
+                } else if gen == "embedded-cyclic-tetris-proto" {
+                    self.embedded_tetris(cx, &g, &listing, "cyclic", 2);
+                } else if gen == "embedded-cyclic-tetris-placer" {
+                    self.embedded_tetris(cx, &g, &listing, "cyclic", 4);
                 } else {
                     self.embedded_gds(cx, &g, &listing, "cyclic");
                 }
